@@ -66,9 +66,12 @@ class Acc:
 
 
 def run_harness(exe, args, acc, job, timeout=600, env=None, cwd=None, crash_prop=None, crash_sig="crash",
-                ok_codes=(0,), stdin=None):
+                ok_codes=(0,), stdin=None, stall=150):
     """runs one harness process; harness results come through VERIF_OUT; a crash becomes a violation of
-    crash_prop attributed to the harness' last progress record (or an EngineError if crash_prop is None)"""
+    crash_prop attributed to the harness' last progress record (or an EngineError if crash_prop is None).
+    stall: a harness that publishes progress records (one per transition / input) and whose record does not change for that many
+    seconds while the process is still running is stuck inside the library call it announced: it is killed and the hang is a violation
+    of crash_prop (a call that never returns).  0 switches this off (jobs whose single steps legitimately take minutes)."""
     os.makedirs(SCRATCH, exist_ok=True)
     fd, outp = tempfile.mkstemp(prefix="out_", dir=SCRATCH); os.close(fd)
     fd, progp = tempfile.mkstemp(prefix="prog_", dir=SCRATCH); os.close(fd)
@@ -84,18 +87,40 @@ def run_harness(exe, args, acc, job, timeout=600, env=None, cwd=None, crash_prop
     t0 = time.time()
     try:
         with open(logp, "wb") as logf:
-            try:
-                r = subprocess.run([exe] + [str(a) for a in args], stdout=logf, stderr=subprocess.STDOUT, env=e,
-                                   timeout=timeout, cwd=cwd, stdin=stdin or subprocess.DEVNULL)
-                rc = r.returncode
-            except subprocess.TimeoutExpired:
-                rc = "timeout"
+            pr = subprocess.Popen([exe] + [str(a) for a in args], stdout=logf, stderr=subprocess.STDOUT, env=e, cwd=cwd, stdin=stdin or subprocess.DEVNULL)
+            last, last_t, rc = None, time.time(), None
+            while True:
+                try:
+                    rc = pr.wait(timeout=2)
+                    break
+                except subprocess.TimeoutExpired:
+                    pass
+                now = time.time()
+                if now - t0 > timeout:
+                    pr.kill(); pr.wait(); rc = "timeout"; break
+                if stall and crash_prop:
+                    try:
+                        cur = open(progp, "rb").read(600).split(b"\0")[0]
+                    except OSError:
+                        cur = b""
+                    if cur != last:
+                        last, last_t = cur, now
+                    elif cur and now - last_t > stall:
+                        pr.kill(); pr.wait(); rc = "stalled"; break
         lines = open(outp).read().splitlines()
         acc.merge_lines(lines, job)
         acc.jobs.append(dict(job=job, rc=rc, wall_s=round(time.time() - t0, 2)))
         if rc == "timeout":
             acc.engine_errors.append("harness job %s exceeded its %ss limit (engine problem, not a verdict)" % (job, timeout))
             return
+        if rc == "stalled":
+            prog = last.decode("utf-8", "replace")
+            sig = crash_sig
+            if prog.startswith("sig="):
+                sig, _, prog = prog[4:].partition(" ")
+            acc.viols.append(dict(t="viol", p=crash_prop, sig="%s/hang" % sig, replay=prog, job=job,
+                                  desc="the harness made no progress for %d s inside the step it had announced (a library call that does not return): %s" % (stall, prog[:400])))
+            return 1
         if rc not in ok_codes and rc != 1:
             prog = ""
             try:
